@@ -147,7 +147,9 @@ def sizes(ctx, keyed, nchunks, api):
     D = scn.blob("D")
     S = scn.sym("declared", 64)
     tag = "C20:%s:sizes:%s:%dchunks" % (api, "keyed" if keyed else "hash", nchunks)
-    r = scn.open("k", {"size": S}) if keyed else scn.open_hash({"size": S})
+    # ... and ANY explicit timestamp (the option takes a u128) and arbitrary raw metadata
+    opts = {"size": S, "time": scn.sym("time", 128), "raw_metadata": scn.whole(scn.blob("R", max_len=16))}
+    r = scn.open("k", opts) if keyed else scn.open_hash(opts)
     if not expect_no_panic(ctx, r, tag + ":open", "opening a writer with an arbitrary declared size"):
         return
     if r.kind != "ok":
